@@ -73,10 +73,8 @@ fn write_uncompressed_size(dst: &mut Vec<u8>, uncompressed_size: usize) -> io::R
 }
 
 fn count_symbols(src: &[u8]) -> NonZero<usize> {
-    assert!(!src.is_empty());
-
-    // SAFETY: `src` is nonempty.
-    let max_symbol = src.iter().max().copied().unwrap();
+    // An empty input (e.g., a bit-packed single symbol) has no symbols to model.
+    let max_symbol = src.iter().max().copied().unwrap_or_default();
 
     let n = usize::from(max_symbol) + 1;
 
